@@ -1,8 +1,10 @@
+mod c16;
 mod c19;
 fn main() {
     let ctx = vcore::Ctx::from_args();
     match ctx.prop.as_str() {
         "C19" => c19::run(&ctx),
+        "C16" => c16::run(&ctx),
         other => {
             eprintln!("MACHINERY: vk-buffer does not serve property {other:?}");
             std::process::exit(2)
